@@ -249,6 +249,8 @@ pub fn replay_with(args: &[String], roundtrip: &dyn Fn(&dyn Obj) -> Option<Resul
                 let sib = |k: usize| reg[k].family == ea.family && reg[k].ft == ea.ft && k != i;
                 if i + 1 < reg.len() && sib(i + 1) { j = i + 1; } else if i > 0 && sib(i - 1) { j = i - 1; }
             }
+            // two registry entries with identical parameters are one class, not two (the model's classes A and B are distinct)
+            if reg[j].label() == ea.label() { let mut t = (j + 1) % reg.len(); while reg[t].variant == "beyond-E" || t == i || reg[t].label() == ea.label() { t = (t + 1) % reg.len(); } j = t; }
             buf.clear();
             if run_instance(sc, ea, &reg[j], i as i64 + 1, j as i64 + 1, seed.wrapping_add(si as u64), &mut buf, &pristine, roundtrip) {
                 instances += 1; events += buf.len() as u64;
